@@ -1,5 +1,6 @@
 import MJ.Proofs.EvalFrame
 import MJ.Proofs.StmtSim
+import MJ.Proofs.DiscardSim
 import MJ.Proofs.C03Tables
 import MJ.Model.VmM
 /-!
@@ -312,6 +313,25 @@ theorem compileExpr_correct {n e ctx heap stack v} (hev : evalExpr n ctx heap st
       { s with pc := (MJ.Compile.cExpr e g).next, stack := v :: s.stack } :=
   MJ.Vm.compileExpr_correct hev hs g post hoof hpc henv
 
+/-- the other entry form: `prog` is the top level of a child template / of an imported module —
+its output is discarded (`Output::begin_capture(Discard)`), its assignments persist — and `tail` the
+layout / importing template that reads them (`renderAfter`).  The model VM runs the code of `prog`
+with a discarding output and the rest with a fresh one; captures begun under the discarding output
+(`{% set x %}…{% endset %}`, filter blocks) still record what is written into them. -/
+theorem vm_refines_eval_discard (prog tail : List Stmt) (hfrag : MJ.Vm.Fragment (prog ++ tail)) (ctx : Scope)
+    (code : List MJ.Compile.Instr) (hcode : MJ.Compile.compileTemplate (prog ++ tail) = some code)
+    (fuel : Nat) (out : String) (hev : renderAfter fuel ctx prog tail = .ok out) :
+    ∃ codeP, MJ.Compile.compileTemplate prog = some codeP ∧
+      ∃ k, ∀ j, MJ.Vm.renderCodeAfter (k + j) ctx code codeP.length = .ok out :=
+  MJ.Vm.vm_refines_eval_discard prog tail hfrag ctx code hcode fuel out hev
+
+/-- a run with a discarding output goes through the same program counters, operand stacks, frames
+and capture buffers (above the bottom entry) as the ordinary run -/
+theorem discard_run_follows_run (ctx : Scope) (C : List MJ.Compile.Instr) (k : Nat) (s s' : MJ.Vm.VmState)
+    (h : MJ.Vm.run ctx C k s = .ok s') :
+    MJ.Vm.runD ctx C k (MJ.Vm.eraseBottom s) = .ok (MJ.Vm.eraseBottom s') :=
+  MJ.Vm.run_erase ctx C k s s' h
+
 /-- constant folding (`Expr::as_const`) never changes a value -/
 theorem asConst_sound {e : Expr} {v : Val} (h : MJ.Compile.asConst e = .val v) (n : Nat) (ctx : Scope)
     (heap : Heap) (stack : List Nat) :
@@ -431,6 +451,20 @@ example : (renderTemplate defaultFuel [("m", .map [("k", .str "v")])] fragProg).
   decide +kernel
 example : ((MJ.Compile.compileTemplate fragProg).bind fun code =>
     (MJ.Vm.renderCode 1000 [("m", .map [("k", .str "v")])] code).toOption) = some "OK[5, 'v']10:3,7:2,5:1.5Falsep1q2|empty|ab5xy5TrueFalse1232noneX10;X30;q3" := by
+  decide +kernel
+
+/-- a set-block at the top level of a "child template": its output is discarded, the captured value
+reaches the "layout" — in the reference semantics and on the model VM -/
+private def childProg : List Stmt :=
+  [.text "dropped", .setBlock "title" [("upper", [])] [.text "Hello ", .emit (.var "name")],
+   .ifS (.var "name") [.setBlock "sub" [] [.forS (.var "c") (.list [ci 1, ci 2]) none [.emit (.var "c")] []]] []]
+private def layoutProg : List Stmt :=
+  [.text "<", .emit (.var "title"), .text "|", .emit (.var "sub"), .text ">"]
+example : (renderAfter defaultFuel [("name", .str "World")] childProg layoutProg).toOption = some "<HELLO WORLD|12>" := by
+  decide +kernel
+example : ((MJ.Compile.compileTemplate (childProg ++ layoutProg)).bind fun code =>
+    (MJ.Compile.compileTemplate childProg).bind fun codeP =>
+    (MJ.Vm.renderCodeAfter 1000 [("name", .str "World")] code codeP.length).toOption) = some "<HELLO WORLD|12>" := by
   decide +kernel
 
 end Examples
